@@ -22,4 +22,5 @@ CHECK = {'title': 'Only root-controlled executables are ever run',
  'level_note': 'parent directories are root-owned (the rule of the statement does not look at them); setuid/setgid/sticky bits are not part of the 512 modes; '
                'panics of the call (start failures) are counted and left to C19',
  'runs': [{'pkg': 'internal/util', 'test': 'TestVX_C18', 'shards_quick': 8, 'shards_thorough': 8},
-          {'pkg': 'internal/configuration', 'test': 'TestVX_C18config', 'shards_quick': 4, 'shards_thorough': 4}]}
+          {'pkg': 'internal/configuration', 'test': 'TestVX_C18config', 'shards_quick': 4, 'shards_thorough': 4},
+          {'pkg': 'cmd', 'test': 'TestVX_C18root', 'shards_quick': 8, 'shards_thorough': 8, 'gomaxprocs': '2'}]}
